@@ -155,17 +155,22 @@ def brief(op):
 def vclass(v):
     return v.get("class")
 
-def reproduce(z, mod, plan, want_class):
+KEYFIELDS = ("class", "call", "target", "manifestation", "file_role", "phase", "defect", "fault_fs")
+def vkey(v):
+    return tuple(str(v.get(k)) for k in KEYFIELDS)
+
+def reproduce(z, mod, plan, want):
+    """want: a violation class (str) or a violation dict (then the whole key - class, call, target, manifestation, window - must persist)"""
     r = z.run(plan)
     viols, _ = eval_run(mod, plan, r)
     for v in viols:
-        if vclass(v) == want_class:
+        if (vclass(v) == want) if isinstance(want, str) else (vkey(v) == vkey(want)):
             return v, r
     return None, r
 
 def minimise(z, mod, plan, v, budget=120):
     """greedy ddmin over ops, faults and schedule; the violation CLASS must persist"""
-    want = vclass(v)
+    want = v
     best = copy.deepcopy(plan); bestv = v
     runs = [0]
     def attempt(cand):
@@ -274,7 +279,7 @@ def do_run(a):
         r = z0.run(plan)
         viols, _ = eval_run(mod, plan, r)
         hit = [v for v in viols if sig_match(k["signature"], v)]
-        other = [v for v in viols if not sig_match(k["signature"], v) and not match_known(known, v) and is_prop_violation(mod, v)]
+        other = []   # a minimised known-finding replay only demonstrates its finding; nothing else is judged on it
         if hit:
             known_lines.append("KNOWN-FINDING: property=%s %s [%s]" % (prop, k["what"], k["id"]))
             ev["known_hits"][k["id"]] = ev["known_hits"].get(k["id"], 0) + 1
@@ -339,7 +344,7 @@ def do_run(a):
             sigkey = (vclass(v), v.get("call"), v.get("target"), v.get("manifestation"))
             if sigkey in seen_classes: continue
             # gate: same plan, different zygote: must fail in the same class
-            vv, r2 = reproduce(zg, mod, plan, vclass(v))
+            vv, r2 = reproduce(zg, mod, plan, v)
             if vv is None:
                 print("NONDETERMINISM: seed=%d class=%s did not reproduce in a second zygote" % (nv["seed"], vclass(v)))
                 rc = 2; continue
@@ -413,7 +418,7 @@ def do_replay(a):
     viols, _ = eval_run(mod, doc["plan"], r)
     z.close()
     for v in viols:
-        if vclass(v) == want:
+        if vkey(v) == vkey(doc["violation"]):
             print("reproduced: class=%s %s" % (want, str(v.get("msg"))[:1500]))
             if a.verbose:
                 for e in r.hist: print(json.dumps(e)[:600])
@@ -449,10 +454,10 @@ def do_mkknown(a):
     class M:
         pass
     orig_reproduce = reproduce
-    def rep(zz, mm, pl, cls):
+    def rep(zz, mm, pl, wantv):
         rr = zz.run(pl); vs, _ = eval_run(mm, pl, rr)
         for x in vs:
-            if vclass(x) == cls and same(x): return x, rr
+            if vclass(x) == vclass(wantv) and same(x): return x, rr
         return None, rr
     globals()["reproduce"] = rep
     mplan, mv = minimise(z, mod, plan, v, budget=200)
